@@ -150,6 +150,7 @@ func n09ClusterClasses(info n09Info) []string {
 	add(info.wipeJoins > 0, "rejoin with emptied directory")
 	add(info.syncs > 1, "intermediate quiescence checks")
 	add(info.abandoned > 0, "teardown abandoned an instance")
+	add(info.skipAhead > 0, "resume accepted after an empty full transfer")
 	add(info.maxHolds > 0, "state compared with >=1 persisted hold")
 	return cls
 }
@@ -175,8 +176,20 @@ func TestC09_Cluster(t *testing.T) {
 		for i := 0; i < out.info.excludedCreateByUpdate; i++ {
 			st.Exclude("update flag dropped from a request whose LockId is not a holder (known finding " + n09KeyCompaction + ")")
 		}
+		for i := 0; i < out.info.knownDupFlush; i++ {
+			st.KnownHit(n09KeyDupFlush)
+		}
+		if out.info.deferredCuts > 0 {
+			st.Exclude("cut deferred past the first record of a full transfer (known finding " + n09KeySkipAhead + ")")
+		}
 		st.Case(n09ClusterNontrivial(out.info), c.fingerprint(), n09ClusterClasses(out.info), func() interface{} { return c })
 		if out.err != nil {
+			if (out.key == n09KeySkipAhead || out.key == n09KeyDupFlush) && vIsKnown(out.key) {
+				// residual of a listed finding that cannot be excluded by construction (the leader itself aborted
+				// the transfer); identified by its exact signature in the proxy log
+				st.KnownHit(out.key)
+				return
+			}
 			vFail(t, "TestC09_Cluster", out.key, c, "%v", out.err)
 		}
 	})
